@@ -192,7 +192,7 @@ theorem run_text {β : Type} (i : Input) (pos : Nat) (d : β) (rd : List Nat →
 /-- **one segment**: if the input at `pos` shows the text the item wrote followed by `f`, and `f` does not continue the item
     (`Item.safe`), `scan_from_with` stores the item's value, moves the stream by exactly the item's text and returns
     `pos` + its length -/
-theorem scanItem_text (c : Cfg) (T : Tables c) (hc : c.look.continues = true) (k : Kind) (it : Item) (f : List Nat)
+theorem scanItem_text (c : Cfg) (T : Tables c) (hc : c.look.continues = true) (hp : c.pctUsesN = true) (k : Kind) (it : Item) (f : List Nat)
     (i : Input) (pos : Nat) (hk : i.kind = k) (hv : it.valid = true) (hs : it.safe k f = true)
     (hsee : i.view pos = some (it.text c ++ f)) :
     scanItem c i pos it.shape = (it.readBack, .ok (i.adv (it.text c).length, pos + (it.text c).length)) := by
@@ -244,11 +244,15 @@ theorem scanItem_text (c : Cfg) (T : Tables c) (hc : c.look.continues = true) (k
         · exact absurd h (by decide)
         · intro ⟨h1, h2⟩; rcases h with h | h <;> simp_all)).1
       rw [hm]; simp
-  | pct => simp [Item.safe] at hs
+  | pct =>
+    simp only [Item.text, List.cons_append, List.nil_append] at hsee ⊢
+    simp only [Item.shape, scanItem, Item.readBack, hsee]
+    rw [skipSpace_nonspace 37 _ (by decide)]
+    simp [hp]
 
 /-! ## sequences -/
 
-theorem scanItems_text (c : Cfg) (T : Tables c) (hc : c.look.continues = true) (k : Kind) (its : List Item) (z : List Nat) :
+theorem scanItems_text (c : Cfg) (T : Tables c) (hc : c.look.continues = true) (hp : c.pctUsesN = true) (k : Kind) (its : List Item) (z : List Nat) :
     ∀ (i : Input) (pos : Nat), i.kind = k → contractOK c k its z = true →
       i.view pos = some (its.flatMap (Item.text c) ++ z) →
       scanItems c i pos (its.map Item.shape)
@@ -260,7 +264,7 @@ theorem scanItems_text (c : Cfg) (T : Tables c) (hc : c.look.continues = true) (
     simp only [contractOK, Bool.and_eq_true] at hcon
     obtain ⟨⟨hv, hs⟩, hrest⟩ := hcon
     simp only [List.flatMap_cons, List.append_assoc] at hsee
-    have h1 := scanItem_text c T hc k it _ i pos hk hv hs hsee
+    have h1 := scanItem_text c T hc hp k it _ i pos hk hv hs hsee
     have hsee' := view_adv i pos _ _ hsee
     have h2 := ih (i.adv (it.text c).length) (pos + (it.text c).length) (by rw [adv_kind]; exact hk) hrest hsee'
     simp only [List.map_cons, scanItems, h1, h2, List.filterMap_cons, List.flatMap_cons, List.length_append, adv_adv, Nat.add_assoc]
